@@ -37,7 +37,8 @@ Definition seg_num (lo hi : N) (l : list block) : list block :=
 
 (* ------------------------------------------------------------------ number mode: the raw sequence *)
 
-(* EVERY filter, EVERY stop block: the run is the handler chain over a raw sequence X; every beginning of X follows
+(* EVERY filter, EVERY stop block: the run is the handler chain over (the part `seen c X` the filter's memory does not
+   drop - all of it unless final-blocks-only - of) a raw sequence X; every beginning of X follows
    the discipline from the empty consumer; when the stream ends waiting X is complete: the consumer of X holds the
    merged blocks from start (never left the files) or, from start on, exactly canon. *)
 Definition C07_num_raw : Prop :=
@@ -53,7 +54,7 @@ Definition C07_num_raw : Prop :=
     let start := run_start c w in
     (exists b, In b canon /\ bnum b = start) ->
     exists X,
-      chain_over c X res /\
+      chain_over c (seen c X) res /\
       (forall X1 X2, X = X1 ++ X2 -> exists c', raw_fold [] X1 = Some c') /\
       (snd res = JNil ->
          exists c', raw_fold [] X = Some c' /\
